@@ -508,6 +508,39 @@ func (fv *FuncVC) term(v ssa.Value) Term {
 // Instructions
 
 func (fv *FuncVC) instr(in ssa.Instruction) {
+	if fv.lenient {
+		defer func() {
+			if r := recover(); r != nil {
+				u, ok := r.(unsupported)
+				if !ok {
+					panic(r)
+				}
+				// not modelled: demand that it is unreachable, give the result an arbitrary value
+				fv.oblige("unmodelled", sanitize(fmt.Sprintf("%T", in)), nil, in.Pos(), "false", "instruction outside the modelled subset must be unreachable here: "+u.msg)
+				if v, isVal := in.(ssa.Value); isVal {
+					if _, done := fv.vals[v]; !done {
+						if tt, isTuple := v.Type().(*types.Tuple); isTuple {
+							var vs []Val
+							for i := 0; i < tt.Len(); i++ {
+								t := fv.freshWF("unm", tt.At(i).Type())
+								t.Go = tt.At(i).Type()
+								vs = append(vs, Val{T: t})
+							}
+							fv.vals[v] = Val{Tuple: vs}
+						} else {
+							t := fv.freshWF("unm", v.Type())
+							t.Go = v.Type()
+							fv.vals[v] = Val{T: t}
+						}
+					}
+				}
+			}
+		}()
+	}
+	fv.instr1(in)
+}
+
+func (fv *FuncVC) instr1(in ssa.Instruction) {
 	switch in := in.(type) {
 	case *ssa.DebugRef:
 	case *ssa.Alloc:
@@ -866,6 +899,9 @@ func (fv *FuncVC) next(in *ssa.Next) {
 
 func (fv *FuncVC) storeInstr(in *ssa.Store) {
 	a := fv.operand(in.Addr)
+	if fv.inert && (a.LV == nil || a.LV.Kind != LAlloc) {
+		fv.oblige("inert", "store", nil, in.Pos(), "false", "no store to shared state on a nil event")
+	}
 	vt := in.Val.Type()
 	v := fv.term(in.Val)
 	if a.LV != nil {
@@ -983,6 +1019,16 @@ func (fv *FuncVC) ret(in *ssa.Return) {
 		res = append(res, v)
 	}
 	fv.results = res
+	if fv.inert {
+		for i, r := range res {
+			switch r.T.Sort.Kind {
+			case KRef:
+				fv.oblige("inert", fmt.Sprintf("result%d", i), nil, in.Pos(), app("=", r.T.S, "0"), "a method on a nil event returns nil")
+			case KBool:
+				fv.oblige("inert", fmt.Sprintf("result%d", i), nil, in.Pos(), smtNot(r.T.S), "a method on a nil event returns false")
+			}
+		}
+	}
 	if fv.C == nil {
 		return
 	}
